@@ -4,13 +4,14 @@ pub(crate) use super::malicious_security::{lagrange, prover, verifier};
 
 // proof / diff array types (private aliases in validation_protocol) for the C09 encoding check
 pub(crate) type ProofDiffAlias = [crate::ff::Fp61BitPrime; crate::protocol::context::dzkp_validator::MAX_PROOF_RECURSION + 1];
-pub(crate) type ProofArrayAlias = Box<
-    [crate::ff::Fp61BitPrime;
-        super::FirstProofGenerator::PROOF_LENGTH
-            + (crate::protocol::context::dzkp_validator::MAX_PROOF_RECURSION - 1) * super::CompressedProofGenerator::PROOF_LENGTH],
->;
+
 
 #[cfg(all(not(feature = "shuttle"), feature = "descriptive-gate"))]
 mod c03p {
     include!(concat!(env!("IPA_VERIF_DIR"), "/c03p.rs"));
+}
+
+#[cfg(all(not(feature = "shuttle"), feature = "descriptive-gate"))]
+mod c09p {
+    include!(concat!(env!("IPA_VERIF_DIR"), "/c09p.rs"));
 }
